@@ -853,3 +853,553 @@ Example ex_ambiguous_rejected :
   plain_tok (b1 115) /\ pos_free c /\ is_set s_allow_external c = false /\ is_set s_args_negate_subs c = false /\
   out_err (do_parse ex_amb [b1 115]) = Some EInvalidSubcommand.
 Proof. cbv zeta. split; [vmr|]. split; [vm_compute; lia|]. split; [vmr|]. split; [solve_plain|]. repeat split; vmr. Qed.
+
+(** * Part 5: the chain composed with the globals merge; [canonical] comes from the validity gate *)
+Import ReentrancyProofs.
+
+Lemma nodup_ids_app_r a : forall b, nodup_ids (a ++ b) = true -> nodup_ids b = true.
+Proof.
+  induction a as [|x t IH]; intros b H; [exact H|]. cbn [app nodup_ids] in H.
+  apply andb_true_iff in H. destruct H as [_ H]. exact (IH b H).
+Qed.
+
+Lemma mem_id_in y l : In y l -> mem_id y l = true.
+Proof. intros H. unfold mem_id. apply existsb_exists. exists y. split; [exact H|apply beq_refl]. Qed.
+
+Lemma nodup_ids_disjoint a : forall b y, nodup_ids (a ++ b) = true -> In y a -> In y b -> False.
+Proof.
+  induction a as [|x t IH]; intros b y H Ha Hb; [destruct Ha|]. cbn [app nodup_ids] in H.
+  apply andb_true_iff in H. destruct H as [Hx H]. destruct Ha as [->|Ha]; [|exact (IH b y H Ha Hb)].
+  rewrite (mem_id_in y (t ++ b)) in Hx; [discriminate|]. apply in_or_app. right. exact Hb.
+Qed.
+
+Lemma aliases_to_in s n : aliases_to s n = true -> In n (c_name s :: all_aliases s).
+Proof.
+  unfold aliases_to. intros H. apply orb_true_iff in H. destruct H as [H|H].
+  - apply beq_eq in H. left. exact H.
+  - apply existsb_exists in H. destruct H as [y [Hin Hy]]. apply beq_eq in Hy. subst y. right. exact Hin.
+Qed.
+
+Lemma canonical_of_nodup_list n sc0 : forall l,
+  nodup_ids (flat_map (fun s => c_name s :: all_aliases s) l) = true ->
+  List.find (fun s => aliases_to s n) l = Some sc0 ->
+  List.find (fun s => aliases_to s (c_name sc0)) l = Some sc0 /\
+  List.find (fun s => beq (c_name s) (c_name sc0)) l = Some sc0.
+Proof.
+  induction l as [|x t IH]; intros Hnd Hf; [discriminate|].
+  cbn [List.find] in Hf |- *. destruct (aliases_to x n) eqn:Ea.
+  - inversion Hf; subst x. rewrite aliases_to_name, beq_refl. split; reflexivity.
+  - cbn [flat_map] in Hnd.
+    destruct (IH (nodup_ids_app_r _ _ Hnd) Hf) as [H1 H2].
+    assert (Hin : In (c_name sc0) (flat_map (fun s => c_name s :: all_aliases s) t)).
+    { apply find_some in Hf. destruct Hf as [Hin _]. apply in_flat_map. exists sc0. split; [exact Hin|left; reflexivity]. }
+    destruct (aliases_to x (c_name sc0)) eqn:E1.
+    { exfalso. exact (nodup_ids_disjoint _ _ _ Hnd (aliases_to_in _ _ E1) Hin). }
+    destruct (beq (c_name x) (c_name sc0)) eqn:E2.
+    { exfalso. apply beq_eq in E2. apply (nodup_ids_disjoint _ _ (c_name sc0) Hnd); [left; exact E2|exact Hin]. }
+    split; assumption.
+Qed.
+
+Lemma assert_app_nodup c : assert_app c = true -> nodup_ids (all_subcommand_names c) = true.
+Proof.
+  unfold assert_app. intros H.
+  apply andb_true_iff in H. destruct H as [H _]. apply andb_true_iff in H. destruct H as [H _].
+  apply andb_true_iff in H. destruct H as [_ H]. exact H.
+Qed.
+
+(** what [debug_asserts] guarantees (unique subcommand names and aliases) is what [Chain.v] assumed *)
+Theorem canonical_of_assert c n sc0 : assert_app c = true -> find_subcommand c n = Some sc0 -> canonical c sc0.
+Proof.
+  intros Ha Hf. apply assert_app_nodup in Ha.
+  exact (canonical_of_nodup_list n sc0 (c_subs c) Ha Hf).
+Qed.
+
+Lemma valid_assert_root c0 : valid c0 = true -> assert_app (build_self c0) = true.
+Proof.
+  unfold valid. cbv zeta. cbn [valid_tree]. intros H. apply andb_true_iff in H. destruct H as [H _]. exact H.
+Qed.
+
+Lemma do_parse_valid c0 toks m' : do_parse c0 toks = OOk m' -> valid c0 = true.
+Proof. unfold do_parse. destruct (valid c0); [reflexivity|discriminate]. Qed.
+
+Lemma post_err_never_ok c e x st : post c (RErr e x) = ROk st -> False.
+Proof.
+  cbn [post]. destruct (is_set s_ignore_errors c); [|discriminate].
+  destruct (add_env c x) as [s1|e1 s1|x1]; [| |discriminate];
+    (destruct (add_defaults c s1) as [s2|e2 s2|x2]; discriminate).
+Qed.
+
+(** a successful level that selected a subcommand ran the validity gate on the lazily built child *)
+Lemma gmw_child_assert f c toks st0 st name keep vaf st1 rest sc0 sc :
+  get_matches_with (S f) c toks st0 = ROk st ->
+  parse_loop c toks (mkL PSValuesDone 1 false false) st0 = ROk (LSub name keep vaf st1 rest) ->
+  find_subcommand c name = Some sc0 -> build_subcommand c (c_name sc0) = Some sc ->
+  assert_app sc = true.
+Proof.
+  intros H Hl Hf Hb. rewrite gmw_unfold in H. unfold parsed_of in H. rewrite Hl in H. cbn [rbind] in H.
+  unfold after_sub in H. destruct (is_set s_args_negate_subs c && vaf); [exfalso; exact (post_err_never_ok _ _ _ _ H)|].
+  rewrite Hf in H. cbn [expect rbind] in H. rewrite Hb in H.
+  destruct (assert_app sc); [reflexivity|]. cbn [negb post] in H. discriminate.
+Qed.
+
+Lemma wline_ext_names c b toks names vals : wline c b toks names (Some vals) -> names <> [].
+Proof. intros H. inversion H; discriminate. Qed.
+
+Lemma wreal_names_cons c b toks n names ext : wline c b toks names ext ->
+  real_names (n :: names) ext = n :: real_names names ext.
+Proof.
+  intros H. destruct ext as [vals|]; [|reflexivity]. unfold real_names.
+  apply wline_ext_names in H. destruct names; [contradiction|reflexivity].
+Qed.
+
+Lemma wl_sub_step c b pre F pst pos tok n keep sc0 sc rest f st0 st :
+  lvl_ok c -> wprefix c b pre F pst pos -> wsel c b pst pos tok n keep -> find_subcommand c n = Some sc0 ->
+  build_subcommand c (c_name sc0) = Some sc ->
+  start_ok b st0 -> get_matches_with (S f) c (pre ++ tok :: rest) st0 = ROk st ->
+  exists st1 sub_st,
+    get_matches_with f sc (if keep then tok :: rest else rest) (sub_init keep st1) = ROk sub_st /\
+    start_ok keep (sub_init keep st1) /\
+    mt_sub (mt st) = Some (c_name sc, into_inner (mt sub_st)) /\
+    assert_app sc = true.
+Proof.
+  intros [Hneg Hign] Hp Hsel Hfind Hbuild [Hsub0 [Hsk0 Hat0]] H.
+  destruct (gmw_step f c _ st0 st H) as [lr [Hlr Hm]]. pose proof Hlr as Hlr0.
+  change (mkL PSValuesDone 1 false false) with (lsV 1 false) in Hlr.
+  rewrite (loop_wprefix c b pre F pst pos Hp (tok :: rest) st0 Hsk0) in Hlr.
+  destruct (F st0) as [st'|e s1|x] eqn:EF; cbn [rbind] in Hlr; try discriminate.
+  destruct (wprefix_fs c b pre F pst pos Hp st0 st' Hsk0 EF) as [Hsk' Hat'].
+  destruct (wsel_loop c b pst pos tok n keep Hsel Hneg rest (negb (is_nil pre)) st' Hsk'
+              (fun Hb => eq_trans Hat' (Hat0 Hb))) as [T [HT Hkeep]].
+  rewrite HT in Hlr. destruct (T st') as [st1|e s1|x] eqn:ET; cbn [rbind] in Hlr; try discriminate.
+  inversion Hlr; subst lr. clear Hlr.
+  pose proof (gmw_child_assert f c _ st0 st _ _ _ _ _ sc0 sc H Hlr0 Hfind Hbuild) as Hassert.
+  destruct Hm as [sc0' [Hf' Hm]]. rewrite Hfind in Hf'. inversion Hf'; subst sc0'. clear Hf'.
+  rewrite Hbuild in Hm. destruct Hm as [sub_st [Hchild Hsub]].
+  destruct Hchild as [Hchild|[e [_ Hi]]]; [|rewrite Hign in Hi; discriminate].
+  exists st1, sub_st. split; [exact Hchild|]. split; [|split; [exact Hsub|exact Hassert]].
+  destruct keep; cbn [sub_init].
+  - split; [reflexivity|]. split; [exact (Hkeep st1 eq_refl eq_refl)|discriminate].
+  - split; [reflexivity|]. split; [reflexivity|]. intros _. reflexivity.
+Qed.
+
+Theorem wline_globals_used : forall c b toks names ext, wline c b toks names ext ->
+  forall f st0 st x v w k, start_ok b st0 -> get_matches_with f c toks st0 = ROk st ->
+  c = U v w (build_self x) -> assert_app c = true -> (matches_depth (into_inner (mt st)) <= k)%nat ->
+  forall lc a, In lc (lazy_cmds c (real_names names ext)) -> In a (c_args lc) -> a_global a = true ->
+  mem_id (a_id a) (used_global_args k (build_recursive f x) (into_inner (mt st))) = true.
+Proof.
+  induction 1 as [c b pre F pst pos Hp|c b pre F pos tail Hp Hesc Hnoext
+                 |c b pre F pst pos tok n keep sc0 sc rest names ext Hlvl Hp Hsel Hfind Hbuild Hline IH
+                 |c b pre F pos tok rest Hp Hext];
+    intros f st0 st x v w k Hstart H Hc Hva Hk lc a Hlc Ha Hg;
+    (destruct f as [|f]; [discriminate|]);
+    (destruct k as [|k]; [exfalso; unfold into_inner in Hk; destruct (mt_sub (mt st)) as [[? ?]|]; cbn [matches_depth] in Hk; lia|]).
+  - cbn [real_names lazy_cmds] in Hlc. destruct Hlc as [<-|[]]. exact (root_used x v w f k _ c a Hc Ha Hg).
+  - cbn [real_names lazy_cmds] in Hlc. destruct Hlc as [<-|[]]. exact (root_used x v w f k _ c a Hc Ha Hg).
+  - rewrite (wreal_names_cons _ _ _ _ _ _ Hline) in Hlc. cbn [lazy_cmds] in Hlc. rewrite Hbuild in Hlc.
+    destruct Hlc as [<-|Hlc]; [exact (root_used x v w f k _ c a Hc Ha Hg)|].
+    destruct (canonical_of_assert c n sc0 Hva Hfind) as [Hcan Hfirst].
+    destruct (wl_sub_step c b pre F pst pos tok n keep sc0 sc rest f st0 st Hlvl Hp Hsel Hfind Hbuild Hstart H)
+      as [st1 [sub_st [Hchild [Hstart' [Hsub Hva']]]]].
+    destruct (build_subcommand_U c sc0 sc Hfirst Hbuild) as [v' [w' Hsc]].
+    assert (Hk' : (matches_depth (into_inner (mt sub_st)) <= k)%nat).
+    { unfold into_inner in Hk at 1. rewrite Hsub in Hk. cbn [matches_depth] in Hk. lia. }
+    pose proof (IH f _ sub_st sc0 v' w' k Hstart' Hchild Hsc Hva' Hk' lc a Hlc Ha Hg) as Hmem.
+    cbn [used_global_args]. unfold mem_id. rewrite existsb_app. apply orb_true_iff. right.
+    unfold into_inner at 1. cbn [ms_sub]. rewrite Hsub.
+    rewrite find_subcommand_rec.
+    assert (Hfs : find_subcommand (build_self x) (c_name sc) = Some sc0).
+    { rewrite (build_subcommand_name c _ sc Hbuild). rewrite <- Hcan. subst c. reflexivity. }
+    rewrite Hfs. cbn [option_map]. exact Hmem.
+  - cbn [real_names removelast lazy_cmds] in Hlc. destruct Hlc as [<-|[]]. exact (root_used x v w f k _ c a Hc Ha Hg).
+Qed.
+
+(** the chain of a [wline] composed with the globals merge; no premise on the children: that
+    [find_subcommand], [_build_subcommand] and [get_used_global_args] agree on them follows from the
+    validity gate, which [_do_parse] ran on the root and the parser on every level it descended into *)
+Theorem do_parse_wline c0 toks names ext m' :
+  wline (build_self c0) false toks names ext -> is_set s_ignore_errors (build_self c0) = false ->
+  do_parse c0 toks = OOk m' ->
+  exists m globals,
+    m' = fst (filled (S (matches_depth m)) globals m) /\
+    globals = used_global_args (S (matches_depth m)) (build_recursive (S (S (depth (build_self c0)))) c0) m /\
+    chain m = names /\ chain m' = names /\ length (levels m') = S (length names) /\
+    match ext with Some vals => deepest m = [(ext_id, ext_marg vals)] | None => True end /\
+    (forall lc a, In lc (lazy_cmds (build_self c0) (real_names names ext)) -> In a (c_args lc) -> a_global a = true ->
+       mem_id (a_id a) globals = true) /\
+    (forall g e0, mem_id g globals = true -> In (Some e0) (map (fm_get g) (levels m)) ->
+       exists e,
+         (forall lv, In lv (levels m') -> fm_get g lv = Some e) /\
+         In (Some e) (map (fm_get g) (levels m)) /\
+         mrank e0 <= mrank e /\
+         (m_source e0 = Some SCmdLine -> m_source e = Some SCmdLine)).
+Proof.
+  intros Hline Hign H. destruct (do_parse_ok c0 toks m' H Hign) as [st [Eg Hm']].
+  pose proof (valid_assert_root c0 (do_parse_valid c0 toks m' H)) as Hva.
+  destruct (chain_of_wline _ _ _ _ _ Hline _ _ _ start_ok_new Eg) as [Hc Hd].
+  set (m := into_inner (mt st)) in *.
+  set (globals := used_global_args (S (matches_depth m)) (build_recursive (S (S (depth (build_self c0)))) c0) m) in *.
+  assert (Hfuel : (matches_depth m <= S (matches_depth m))%nat) by lia.
+  destruct (merge_chain (S (matches_depth m)) globals m Hfuel) as [Hmc Hml].
+  exists m, globals. split; [exact Hm'|]. split; [reflexivity|]. split; [exact Hc|].
+  rewrite Hm'. split; [rewrite Hmc; exact Hc|]. split; [rewrite Hml, levels_length, Hc; reflexivity|].
+  split; [exact Hd|]. split.
+  - intros lc a Hlc Hin Hg.
+    eapply (wline_globals_used _ _ _ _ _ Hline _ _ _ c0 _ _ _ start_ok_new Eg);
+      [symmetry; apply U_eta|exact Hva|exact Hfuel|exact Hlc|exact Hin|exact Hg].
+  - intros g e0 Hg Hin. exact (explicit_beats_default (S (matches_depth m)) globals m g e0 Hfuel Hg Hin).
+Qed.
+
+(** * Part 6: a user-defined subcommand named `help` (the generated one disabled) *)
+
+(** with [disable_help_subcommand] no child counts as the generated help: the guard of
+    [_propagate_global_args] ([autogenerated_help]) copies the globals into a child named `help` too,
+    and the parser's `help` special case ([LHelpSub]) is off *)
+Lemma auto_help_disabled c sc : is_set s_disable_help_sub c = true -> auto_help c sc = false.
+Proof. intros H. unfold auto_help. rewrite H. apply andb_false_r. Qed.
+
+Lemma not_help_disabled c n : is_set s_disable_help_sub c = true -> not_help c n.
+Proof. intros H. unfold not_help. rewrite H. apply andb_false_r. Qed.
+
+(** the word `help` selects the user's subcommand like any other name *)
+Theorem user_help_selected c sc0 :
+  is_set s_disable_help_sub c = true -> is_set s_infer_sub c = false ->
+  find_subcommand c s_help = Some sc0 -> nsel c s_help (c_name sc0).
+Proof. intros Hd Hi Hf. apply ns_exact; [reflexivity|exact Hi|exact Hf|exact (not_help_disabled c _ Hd)]. Qed.
+
+(** every global argument of a freshly built command is findable in its child named `help` *)
+Theorem user_help_globals c0 g sc' :
+  s_built (c_set c0) = false -> is_set s_disable_help_sub (build_self c0) = true ->
+  has_global (build_self c0) g -> In sc' (c_subs (build_self c0)) -> c_name sc' = s_help ->
+  exists a', find_arg sc' g = Some a'.
+Proof.
+  intros Hb Hd Hg Hin _. exact (build_self_copies c0 g sc' Hb Hg Hin (auto_help_disabled _ sc' Hd)).
+Qed.
+
+(** … and, hereditarily, a global of it once the parser has built the child ([defs_copied_deep] applies:
+    its side condition [auto_help = false] holds for every child) *)
+Theorem user_help_path g c sc0 sc' :
+  is_set s_disable_help_sub c = true ->
+  List.find (fun s => beq (c_name s) s_help) (c_subs c) = Some sc0 ->
+  (forall a', find_arg sc0 g = Some a' -> a_global a' = true) -> s_built (c_set sc0) = false ->
+  build_subcommand c s_help = Some sc' -> gpath g c [s_help] sc'.
+Proof.
+  intros Hd Hf Hns Hb Hbs. eapply gp_cons; [exact Hf|exact (auto_help_disabled c sc0 Hd)|exact Hns|exact Hb|exact Hbs|apply gp_nil].
+Qed.
+
+(** p(-g <v> global, default d; disable_help_subcommand) -> help(-t) ; `-g x help -t -g y` *)
+Definition ex_uhelp : cmd :=
+  (cmd_new (b1 112))
+    <| c_args := [ex_opt 103 103 true [b1 100]] |>
+    <| c_set := settings_none <| s_disable_help_sub := true |> |>
+    <| c_gset := settings_none <| s_disable_help_sub := true |> |>
+    <| c_subs := [ (cmd_new s_help) <| c_args := [ex_flag 116 116] |> ] |>.
+Definition ex_uhelp_line : list bytes := [[45; 103]; b1 120; s_help; [45; 116]; [45; 103]; b1 121].
+
+Example ex_uhelp_is_wline :
+  exists names, wline (build_self ex_uhelp) false ex_uhelp_line names None /\ names = [s_help].
+Proof.
+  eexists. split.
+  { eapply (wl_sub _ false [[45; 103]; b1 120] _ PSValuesDone 1 s_help _ false _ _ [[45; 116]; [45; 103]; b1 121] [] None).
+    - split; vmr.
+    - apply wp_plain, wb_plain. eapply (pi_opt _ 1 [[45; 103]; b1 120] _ []); [|apply pi_nil].
+      eapply (it_short_sep _ [45; 103] [103] 103);
+        [solve_nosub|vmr|vmr|vmr|vmr|vmr|vmr|vmr|apply pos_free_no_hyphen; vmr|vmr|vmr|vmr|solve_nosub|vmr|vmr|vmr|vmr].
+    - apply ws_name. apply (user_help_selected (build_self ex_uhelp)); vmr.
+    - vmr.
+    - vmr.
+    - cbv iota. eapply wl_end. apply wp_plain, wb_plain.
+      eapply (pi_opt _ 1 [[45; 116]] _ [[45; 103]; b1 121]); [flag_cluster 116|].
+      eapply (pi_opt _ 1 [[45; 103]; b1 121] _ []); [|apply pi_nil].
+      eapply (it_short_sep _ [45; 103] [103] 103);
+        [solve_nosub|vmr|vmr|vmr|vmr|vmr|vmr|vmr|apply pos_free_no_hyphen; vmr|vmr|vmr|vmr|solve_nosub|vmr|vmr|vmr|vmr]. }
+  vmr.
+Qed.
+
+Example ex_uhelp_parses :
+  exists m', do_parse ex_uhelp ex_uhelp_line = OOk m' /\ is_set s_ignore_errors (build_self ex_uhelp) = false /\
+    chain m' = [s_help] /\
+    map (fun lv => opt_map (fun e => (m_source e, m_raw e)) (fm_get (b1 103) lv)) (levels m') =
+      [Some (Some SCmdLine, [[b1 121]]); Some (Some SCmdLine, [[b1 121]])] /\
+    (exists sc' a', find_subcommand (build_self ex_uhelp) s_help = Some sc' /\ find_arg sc' (b1 103) = Some a' /\ a_global a' = true).
+Proof.
+  eexists. split; [vmr|]. split; [vmr|]. split; [vmr|]. split; [vmr|].
+  eexists. eexists. split; [vmr|]. split; vmr.
+Qed.
+
+(** * Part 7: level isolation on the entries at every depth, and which occurrence of a global wins *)
+
+(** selecting tokens that hand the child a fresh state and leave the parent's state alone: a name
+    (with or without inference), `--sub`; behind multi-values a name with precedence *)
+Inductive psel (c : cmd) : pstate_t -> bytes -> bytes -> Prop :=
+| ps_sel tok n : sel c tok n -> psel c PSValuesDone tok n
+| ps_name tok n : nsel c tok n -> psel c PSValuesDone tok n
+| ps_prec i tok n : is_set s_sub_precedence c = true -> nsel c tok n -> psel c (PSPos i) tok n.
+
+Lemma psel_wsel c b pst pos tok n : psel c pst tok n -> wsel c b pst pos tok n false.
+Proof. intros [tok0 n0 H|tok0 n0 H|i tok0 n0 Hp H]; [apply ws_sel|apply ws_name|apply ws_prec]; assumption. Qed.
+
+Lemma psel_loop c pst tok n : psel c pst tok n -> is_set s_args_negate_subs c = false ->
+  forall rest pos vaf st, parse_loop c (tok :: rest) (mkL pst pos vaf false) st = ROk (LSub n false vaf st rest).
+Proof.
+  intros [tok0 n0 H|tok0 n0 H|i tok0 n0 Hp H] Hneg rest pos vaf st.
+  - exact (sel_loop c tok0 n0 H Hneg rest pos vaf st).
+  - apply (nsel_loop c tok0 n0 H Hneg PSValuesDone). apply orb_true_r.
+  - apply (nsel_loop c tok0 n0 H Hneg (PSPos i)). rewrite Hp. reflexivity.
+Qed.
+
+Lemma wprefix_alone c pre F pst pos : wprefix c false pre F pst pos -> forall st, fs_skip st = 0 ->
+  parse_loop c pre (lsV 1 false) st = (do st' <- F st; ROk (LDone st')).
+Proof.
+  intros Hp st Hsk. pose proof (loop_wprefix c false pre F pst pos Hp [] st Hsk) as H.
+  rewrite app_nil_r in H. rewrite H. destruct (F st); reflexivity.
+Qed.
+
+(** one level, as an equation: the level is a function of its own definition, its own tokens (through
+    [F]) and the child's run from a fresh state *)
+Theorem wlevel_step c pre F pst pos tok n f : wprefix c false pre F pst pos -> psel c pst tok n ->
+  is_set s_args_negate_subs c = false ->
+  forall rest st0, fs_skip st0 = 0 ->
+  get_matches_with (S f) c (pre ++ tok :: rest) st0 =
+  post c (do st' <- F st0; after_sub f c n false (negb (is_nil pre)) st' rest).
+Proof.
+  intros Hp Hs Hn rest st0 Hfs. rewrite gmw_unfold. unfold parsed_of.
+  change (mkL PSValuesDone 1 false false) with (lsV 1 false).
+  rewrite (loop_wprefix c false pre F pst pos Hp (tok :: rest) st0 Hfs).
+  destruct (F st0) as [st'|e s1|x]; cbn [rbind]; try reflexivity.
+  rewrite (psel_loop c pst tok n Hs Hn). reflexivity.
+Qed.
+
+(** the entries of a level that selected a subcommand are those its own tokens alone produce *)
+Theorem wlevel_entries c pre F pst pos tok n f rest st :
+  wprefix c false pre F pst pos -> psel c pst tok n -> lvl_ok c ->
+  get_matches_with (S f) c (pre ++ tok :: rest) ps_new = ROk st ->
+  exists st' stf,
+    parse_loop c pre (lsV 1 false) ps_new = ROk (LDone st') /\
+    fill c st' = ROk stf /\
+    st = ssub (mt_sub (mt st)) stf.
+Proof.
+  intros Hp Hs [Hneg Hign] H.
+  rewrite (wlevel_step c pre F pst pos tok n f Hp Hs Hneg rest ps_new eq_refl) in H.
+  rewrite (wprefix_alone c pre F pst pos Hp ps_new eq_refl).
+  destruct (F ps_new) as [st'|e s1|x]; cbn [rbind] in H |- *; [|exfalso; exact (post_err c e s1 st Hign H)|discriminate].
+  destruct (after_sub f c n false (negb (is_nil pre)) st' rest) as [st2|e s2|x] eqn:Ea;
+    [|exfalso; exact (post_err c e s2 st Hign H)|discriminate].
+  apply after_sub_ok in Ea. apply post_ok in H. rewrite Ea, fill_ssub in H.
+  destruct (fill c st') as [stf|e s3|x] eqn:Ef; cbn [rmap] in H; try discriminate.
+  exists st', stf. split; [reflexivity|]. split; [exact Ef|].
+  inversion H. reflexivity.
+Qed.
+
+(** … and so are the entries of the last level *)
+Theorem wlevel_end c pre F pst pos f st :
+  wprefix c false pre F pst pos -> get_matches_with (S f) c pre ps_new = ROk st ->
+  exists st', parse_loop c pre (lsV 1 false) ps_new = ROk (LDone st') /\ fill c st' = ROk st.
+Proof.
+  intros Hp H. rewrite gmw_unfold in H. unfold parsed_of in H.
+  change (mkL PSValuesDone 1 false false) with (lsV 1 false) in H.
+  rewrite (wprefix_alone c pre F pst pos Hp ps_new eq_refl) in H |- *.
+  destruct (F ps_new) as [st'|e s1|x]; cbn [rbind] in H |- *; [|exfalso; exact (post_err_never_ok _ _ _ _ H)|discriminate].
+  exists st'. split; [reflexivity|]. exact (post_ok c st' st H).
+Qed.
+
+(** what the tokens [pre] ALONE produce against the definition [c]: the token loop from a fresh state,
+    then the pending occurrence, the environment and the defaults *)
+Definition own_entries (c : cmd) (pre : list bytes) : option (list (id * marg)) :=
+  match parse_loop c pre (lsV 1 false) ps_new with
+  | ROk (LDone st') => match fill c st' with ROk stf => Some (mt_args (mt stf)) | _ => None end
+  | _ => None
+  end.
+
+(** [wsplit c toks names lv]: a [wline] whose levels are left through [psel] tokens, together with its
+    decomposition into (definition of the level, tokens of the level) *)
+Inductive wsplit : cmd -> list bytes -> list bytes -> list (cmd * list bytes) -> Prop :=
+| sp_end c pre F pst pos : wprefix c false pre F pst pos -> wsplit c pre [] [(c, pre)]
+| sp_sub c pre F pst pos tok n sc0 sc rest names lv :
+    lvl_ok c -> wprefix c false pre F pst pos -> psel c pst tok n -> find_subcommand c n = Some sc0 ->
+    build_subcommand c (c_name sc0) = Some sc -> wsplit sc rest names lv ->
+    wsplit c (pre ++ tok :: rest) (c_name sc0 :: names) ((c, pre) :: lv).
+
+Lemma wsplit_wline : forall c toks names lv, wsplit c toks names lv -> wline c false toks names None.
+Proof.
+  induction 1 as [c pre F pst pos Hp|c pre F pst pos tok n sc0 sc rest names lv Hl Hp Hs Hf Hb Hsp IH].
+  - eapply wl_end. exact Hp.
+  - eapply (wl_sub c false pre F pst pos tok n false); try eassumption. apply psel_wsel. exact Hs.
+Qed.
+
+(** level isolation at every depth: the entries the parser reports at level j are exactly the entries
+    the tokens of level j alone produce against the definition of level j *)
+Theorem levels_of_wsplit : forall c toks names lv, wsplit c toks names lv ->
+  forall f st, get_matches_with f c toks ps_new = ROk st ->
+  map Some (levels (into_inner (mt st))) = map (fun p => own_entries (fst p) (snd p)) lv.
+Proof.
+  induction 1 as [c pre F pst pos Hp|c pre F pst pos tok n sc0 sc rest names lv Hl Hp Hs Hf Hb Hsp IH];
+    intros f st H; (destruct f as [|f]; [discriminate|]).
+  - assert (Hw : wline c false pre [] None) by (eapply wl_end; exact Hp).
+    destruct (chain_of_wline _ _ _ _ _ Hw _ _ _ start_ok_new H) as [Hc _].
+    destruct (wlevel_end c pre F pst pos f st Hp H) as [st' [Hloop Hfill]].
+    cbn [map fst snd]. unfold own_entries. rewrite Hloop, Hfill.
+    unfold into_inner in Hc |- *. destruct (mt_sub (mt st)) as [[n0 s0]|]; [discriminate|]. reflexivity.
+  - destruct (wlevel_entries c pre F pst pos tok n f rest st Hp Hs Hl H) as [st' [stf [Hloop [Hfill Hst]]]].
+    destruct (wl_sub_step c false pre F pst pos tok n false sc0 sc rest f ps_new st Hl Hp (psel_wsel c false pst pos tok n Hs)
+                Hf Hb start_ok_new H) as [st1 [sub_st [Hchild [_ [Hsub _]]]]].
+    cbn [sub_init] in Hchild. specialize (IH f sub_st Hchild).
+    assert (Hargs : mt_args (mt st) = mt_args (mt stf)) by (rewrite Hst; reflexivity).
+    cbn [map fst snd]. unfold own_entries at 1. rewrite Hloop, Hfill, <- IH.
+    unfold into_inner at 1. rewrite Hsub, Hargs. reflexivity.
+Qed.
+
+(** ** the deepest explicit occurrence wins *)
+Lemma app_split_cases {A} : forall (l1 l1' : list A) x x' l2 l2',
+  l1 ++ x :: l2 = l1' ++ x' :: l2' ->
+  (l1 = l1' /\ x = x' /\ l2 = l2') \/ (In x l2' /\ In x' l1) \/ (In x l1' /\ In x' l2).
+Proof.
+  induction l1 as [|a t IH]; intros [|a' t'] x x' l2 l2' H; cbn [app] in H.
+  - inversion H. left. auto.
+  - inversion H; subst. right. right. split; [left; reflexivity|]. apply in_or_app. right. left. reflexivity.
+  - inversion H; subst. right. left. split; [apply in_or_app; right; left; reflexivity|left; reflexivity].
+  - inversion H; subst. destruct (IH t' x x' l2 l2' H2) as [[E1 [E2 E3]]|[[H3 H4]|[H3 H4]]].
+    + left. subst. auto.
+    + right. left. split; [exact H3|right; exact H4].
+    + right. right. split; [right; exact H3|exact H4].
+Qed.
+
+(** merge level: if level |l1| holds a command-line entry [e] for the global [g] and no deeper level
+    holds a command-line entry, then EVERY level of the result reports [e] — whatever the levels above
+    hold (other command-line values included) *)
+Theorem deepest_explicit_wins fuel globals m g l1 e l2 :
+  (matches_depth m <= fuel)%nat -> mem_id g globals = true ->
+  map (fm_get g) (levels m) = l1 ++ Some e :: l2 ->
+  m_source e = Some SCmdLine ->
+  (forall e', In (Some e') l2 -> m_source e' <> Some SCmdLine) ->
+  forall lv, In lv (levels (fst (filled fuel globals m))) -> fm_get g lv = Some e.
+Proof.
+  intros Hf Hg Hs Hc Hdeep.
+  assert (Hin : In (Some e) (map (fm_get g) (levels m))) by (rewrite Hs; apply in_or_app; right; left; reflexivity).
+  destruct (globals_merge fuel globals m g e Hf Hg Hin) as [e1 [k1 [k2 [Ha [Hs1 [H1 H2]]]]]].
+  rewrite Hs in Hs1. apply mrank_cmdline in Hc.
+  destruct (app_split_cases _ _ _ _ _ _ Hs1) as [[_ [E _]]|[[H3 H4]|[H3 H4]]].
+  - inversion E; subst e1. exact Ha.
+  - specialize (H2 e H3). pose proof (mrank_le3 e1). lia.
+  - specialize (H1 e H3). assert (H5 : mrank e1 = 3) by (pose proof (mrank_le3 e1); lia).
+    apply mrank_cmdline in H5. exfalso. exact (Hdeep e1 H4 H5).
+Qed.
+
+(** line level — WHICH occurrence wins: split the line into its levels ([wsplit]); let level j be the
+    deepest whose own tokens produce a command-line entry [e] for the global [g] (every deeper level's
+    own tokens leave [g] at a default / env value or absent).  Then every level of the final matches
+    reports [e]: the values given at level j, source CommandLine — also where levels above j gave other
+    values *)
+Theorem deepest_explicit_line c0 toks names lv m' g l1 cj prej l2 ownj e :
+  wsplit (build_self c0) toks names lv -> is_set s_ignore_errors (build_self c0) = false ->
+  do_parse c0 toks = OOk m' ->
+  (exists lc a, In lc (lazy_cmds (build_self c0) names) /\ In a (c_args lc) /\ a_global a = true /\ a_id a = g) ->
+  lv = l1 ++ (cj, prej) :: l2 -> own_entries cj prej = Some ownj -> fm_get g ownj = Some e ->
+  m_source e = Some SCmdLine ->
+  (forall c' p' own' e', In (c', p') l2 -> own_entries c' p' = Some own' -> fm_get g own' = Some e' ->
+     m_source e' <> Some SCmdLine) ->
+  forall lvl, In lvl (levels m') -> fm_get g lvl = Some e.
+Proof.
+  intros Hsp Hign H [lc [a [Hlc [Ha [Hga Hid]]]]] Hlv Hown Hget Hc Hdeep.
+  destruct (do_parse_ok c0 toks m' H Hign) as [st [Eg Hm']].
+  pose proof (valid_assert_root c0 (do_parse_valid c0 toks m' H)) as Hva.
+  pose proof (wsplit_wline _ _ _ _ Hsp) as Hline.
+  set (m := into_inner (mt st)) in *.
+  assert (Hfuel : (matches_depth m <= S (matches_depth m))%nat) by lia.
+  assert (Hmem : mem_id g (used_global_args (S (matches_depth m)) (build_recursive (S (S (depth (build_self c0)))) c0) m) = true).
+  { rewrite <- Hid.
+    eapply (wline_globals_used _ _ _ _ _ Hline _ _ _ c0 _ _ _ start_ok_new Eg);
+      [symmetry; apply U_eta|exact Hva|exact Hfuel|exact Hlc|exact Ha|exact Hga]. }
+  pose proof (levels_of_wsplit _ _ _ _ Hsp _ _ Eg) as Hlev. fold m in Hlev. rewrite Hlv, map_app in Hlev. cbn [map fst snd] in Hlev.
+  rewrite Hown in Hlev.
+  destruct (map_eq_app _ _ _ _ Hlev) as [L1 [L2' [EL [EL1 EL2]]]].
+  destruct (map_eq_cons _ _ EL2) as [o [L2 [EL3 [Eo EL4]]]]. inversion Eo; subst o. clear Eo.
+  rewrite Hm'. apply (deepest_explicit_wins (S (matches_depth m)) _ m g (map (fm_get g) L1) e (map (fm_get g) L2) Hfuel Hmem).
+  - rewrite EL, EL3, map_app. cbn [map]. rewrite Hget. reflexivity.
+  - exact Hc.
+  - intros e' Hin. apply in_map_iff in Hin. destruct Hin as [own' [Hg' Hin']].
+    assert (Hs : In (Some own') (map Some L2)) by (apply in_map; exact Hin').
+    rewrite EL4 in Hs. apply in_map_iff in Hs. destruct Hs as [[c' p'] [Ho Hin2]]. cbn [fst snd] in Ho.
+    exact (Hdeep c' p' own' e' Hin2 Ho Hg').
+Qed.
+
+(** `-g x a sy -g y -y` on [ex_wide]: `-g` given at both levels with different values — level 1 wins;
+    `-g x a sy -y`: only level 0 names it — its value is reported at both levels *)
+Definition ex_gg_line : list bytes := [[45; 103]; b1 120; b1 97; [115; 121]; [45; 103]; b1 121; [45; 121]].
+Definition ex_g_line : list bytes := [[45; 103]; b1 120; b1 97; [115; 121]; [45; 121]].
+
+Lemma no_hyphen_of_args c :
+  forallb (fun a => negb (a_negnum a) && negb (a_hyphen a)) (c_args c) = true -> no_hyphen c.
+Proof.
+  intros H pos. unfold no_hyphen_pos. destruct (get_pos c pos) as [a|] eqn:E; [|exact I].
+  unfold get_pos in E. destruct (List.find _ (keymap c)) as [[k a0]|] eqn:Ef; cbn [opt_map snd] in E; [|discriminate].
+  inversion E; subst a0. apply find_some in Ef. destruct Ef as [Hin _].
+  unfold keymap in Hin. apply in_flat_map in Hin. destruct Hin as [a1 [Ha1 Hk]].
+  apply in_map_iff in Hk. destruct Hk as [k1 [Hk1 _]]. inversion Hk1; subst a1.
+  rewrite forallb_forall in H. specialize (H a Ha1). apply andb_true_iff in H. destruct H as [Hn Hh].
+  apply negb_true_iff in Hn. apply negb_true_iff in Hh. rewrite Hn, Hh. split; reflexivity.
+Qed.
+
+Ltac short_sep_g :=
+  eapply (it_short_sep _ [45; 103] [103] 103);
+    [solve_nosub|vmr|vmr|vmr|vmr|vmr|vmr|vmr|apply no_hyphen_of_args; vmr
+    |vmr|vmr|vmr|solve_nosub|vmr|vmr|vmr|vmr].
+
+Example ex_gg_wsplit :
+  exists names lv, wsplit (build_self (ex_wide false)) ex_gg_line names lv /\
+    names = [w_sync] /\ map snd lv = [[[45; 103]; b1 120; b1 97]; [[45; 103]; b1 121; [45; 121]]].
+Proof.
+  eexists. eexists. split.
+  { eapply (sp_sub _ [[45; 103]; b1 120; b1 97] _ PSValuesDone 2 [115; 121] _ _ _ [[45; 103]; b1 121; [45; 121]]).
+    - split; vmr.
+    - apply wp_plain, wb_plain. eapply (pi_opt _ 1 [[45; 103]; b1 120] _ [b1 97]); [short_sep_g|].
+      eapply (pi_pos _ 1 (b1 97) _ []); [solve_nosub|solve_plain|solve_takes|vmr|apply pi_nil].
+    - apply ps_name. apply ns_unique; vmr.
+    - vmr.
+    - vmr.
+    - eapply sp_end. apply wp_plain, wb_plain.
+      eapply (pi_opt _ 1 [[45; 103]; b1 121] _ [[45; 121]]); [short_sep_g|].
+      eapply (pi_opt _ 1 [[45; 121]] _ []); [flag_cluster 121|apply pi_nil]. }
+  split; vmr.
+Qed.
+
+Example ex_gg_parses :
+  exists m', do_parse (ex_wide false) ex_gg_line = OOk m' /\
+    map (fun lv => opt_map (fun e => (m_source e, m_raw e)) (fm_get (b1 103) lv)) (levels m') =
+      [Some (Some SCmdLine, [[b1 121]]); Some (Some SCmdLine, [[b1 121]])] /\
+    opt_map (fun own => opt_map (fun e => (m_source e, m_raw e)) (fm_get (b1 103) own))
+            (own_entries (build_self (ex_wide false)) [[45; 103]; b1 120; b1 97]) = Some (Some (Some SCmdLine, [[b1 120]])).
+Proof. eexists. split; [vmr|]. split; vmr. Qed.
+
+Example ex_g_parses :
+  exists m', do_parse (ex_wide false) ex_g_line = OOk m' /\
+    map (fun lv => opt_map (fun e => (m_source e, m_raw e)) (fm_get (b1 103) lv)) (levels m') =
+      [Some (Some SCmdLine, [[b1 120]]); Some (Some SCmdLine, [[b1 120]])].
+Proof. eexists. split; vmr. Qed.
+
+(** the hypotheses of [deepest_explicit_line] hold on `-g x a sy -g y -y`: two levels, BOTH name `-g`
+    (level 0: x, level 1: y); the deepest one is level 1, nothing below it *)
+Example ex_gg_deepest_hyps :
+  let c := build_self (ex_wide false) in
+  exists names lv cj prej ownj e,
+    wsplit c ex_gg_line names lv /\
+    lv = [(c, [[45; 103]; b1 120; b1 97])] ++ (cj, prej) :: [] /\
+    own_entries cj prej = Some ownj /\ fm_get (b1 103) ownj = Some e /\
+    m_source e = Some SCmdLine /\ m_raw e = [[b1 121]] /\
+    (exists lc a, In lc (lazy_cmds c names) /\ In a (c_args lc) /\ a_global a = true /\ a_id a = b1 103).
+Proof.
+  cbv zeta. eexists. eexists. eexists. eexists. eexists. eexists. split.
+  { eapply (sp_sub _ [[45; 103]; b1 120; b1 97] _ PSValuesDone 2 [115; 121] _ _ _ [[45; 103]; b1 121; [45; 121]]).
+    - split; vmr.
+    - apply wp_plain, wb_plain. eapply (pi_opt _ 1 [[45; 103]; b1 120] _ [b1 97]); [short_sep_g|].
+      eapply (pi_pos _ 1 (b1 97) _ []); [solve_nosub|solve_plain|solve_takes|vmr|apply pi_nil].
+    - apply ps_name. apply ns_unique; vmr.
+    - vmr.
+    - vmr.
+    - eapply sp_end. apply wp_plain, wb_plain.
+      eapply (pi_opt _ 1 [[45; 103]; b1 121] _ [[45; 121]]); [short_sep_g|].
+      eapply (pi_opt _ 1 [[45; 121]] _ []); [flag_cluster 121|apply pi_nil]. }
+  split; [reflexivity|]. split; [vmr|]. split; [vmr|]. split; [vmr|]. split; [vmr|].
+  exists (build_self (ex_wide false)). eexists. split; [cbn [lazy_cmds]; apply in_eq|].
+  split; [vm_compute; left; reflexivity|]. split; vmr.
+Qed.
